@@ -1,5 +1,6 @@
 import SaModel.Props.C01
 import SaModel.Props.C11Front
+import SaModel.Build.Wrappers
 /-
 C11 — how a record is presented does not change the arrays.
 
@@ -202,21 +203,10 @@ theorem record_perm (ext : Ext) (sfs : Fields) (n : Bool) (md : Metadata) (nm nm
 
 /-! ### `Item` / `Items` (serde_arrow/src/internal/utils/mod.rs:17-153)
 
-The two wrappers have hand-written `Serialize` impls; they are modelled here call by call.  Everything the builder (and
-the specification) sees of them is the value below, so "behave exactly like a one-field record named `item`" is the
+The two wrappers have hand-written `Serialize` impls; they are modelled call by call in Build/Wrappers.lean
+(`Build.serItem`, `Build.serItems`).  Everything the builder (and the specification) sees of them is that value, so "behave exactly like a one-field record named `item`" is the
 definitional unfolding `item_is_record` / `items_is_seq_of_records`, and the consequences are the presentation theorems
 applied to it.  (Array-level corollaries: Props/C11Arrays.lean.) -/
-
-/-- `impl<T: Serialize> Serialize for Item<T>` (utils/mod.rs:67-78): builds the local
-`#[derive(Serialize)] struct Item<'a, T> { item: &'a T }` and serializes it — `serialize_struct("Item", 1)`, one
-`serialize_field("item", &self.0)`, `end`.  `al`: the address identity of the static name `"item"`; `v`: the calls
-`T::serialize` issues. -/
-def serItem (al : Nat) (v : SVal) : SVal := .record "Item" (.cons "item" al v .nil)
-
-/-- `impl<T: Serialize> Serialize for Items<&[T]>` (utils/mod.rs:140-151; the impls for `Vec<T>`, `&Vec<T>`, `[T; N]`,
-`&[T; N]` delegate to it through `as_slice`, :104-138): `serialize_seq(Some(len))`, one `serialize_element(&Item(item))`
-per item, `end`.  All elements go through the same `Item<&T>` impl, hence the same static `"item"` (`al`). -/
-def serItems (al : Nat) (vs : List SVal) : SVal := .seq (SVals.ofList (vs.map (serItem al)))
 
 /-- **`Item(v)` IS the one-field record named `item`** (what `#[derive(Serialize)] struct Item { item: T }` issues) -/
 theorem item_is_record (al : Nat) (v : SVal) : serItem al v = .record "Item" (.cons "item" al v .nil) := rfl
